@@ -288,20 +288,35 @@ func runC14Strings(ctx *Ctx) {
 		var sp cty.Value
 		k := 0
 		inDomain := true
-		switch r.Intn(12) {
+		big := false
+		switch r.Intn(14) {
 		case 0:
 			sp, inDomain = cty.NumberIntVal(int64(-1-r.Intn(3))), false
 		case 1:
 			sp, inDomain = cty.NumberFloatVal(1.5), false
 		case 2:
 			sp, inDomain = cty.MustParseNumberVal("1e30"), false
+		case 3, 4:
+			// counts whose padding would not fit (math.MaxInt32 and beyond): refused when the string has a line
+			// break, immaterial when it has none (/repo d4d90b0) -- never a panic, never an attempt to build it
+			big = true
+			sp = cty.NumberIntVal([]int64{2147483647, 2147483648, 1 << 40, 1<<62 + 1}[r.Intn(4)])
+			if r.Intn(2) == 0 {
+				a = sv(strings.ReplaceAll(a.AsString(), "\n", " "))
+			} else if r.Intn(2) == 0 {
+				a = sv(a.AsString() + "\n")
+			}
+			inDomain = !strings.Contains(a.AsString(), "\n")
+			ctx.Tag(fmt.Sprintf("indent:huge-count:linebreak=%v", !inDomain))
 		default:
 			k = r.Intn(6)
 			sp = cty.NumberIntVal(int64(k))
 		}
 		o := newOracle()
 		c := glueCase{name: "indent", goNm: "Indent", f: stdlib.IndentFunc, args: []cty.Value{sp, a}, orc: o}
-		if inDomain {
+		if inDomain && big {
+			c.want = sv(o.nfc(a.AsString()))
+		} else if inDomain {
 			c.want = sv(o.nfc(strings.ReplaceAll(a.AsString(), "\n", "\n"+strings.Repeat(" ", k))))
 		} else {
 			c.wantErr = true
@@ -497,6 +512,16 @@ func c14Regex(ctx *Ctx, n int) {
 		o1.entries, o1.seen = append([]string{}, o.entries...), map[string]bool{}
 		c := glueCase{name: "regex", goNm: "Regex", f: stdlib.RegexFunc, args: []cty.Value{pat, str}, orc: o1}
 		idx := re.FindStringSubmatchIndex(str.AsString())
+		if idx != nil {
+			// the law about the regexp package that C14.regex_never_panics assumes (IdxOK): one pair per group incl.
+			// the whole match, every pair (-1,-1) or 0 <= a <= b <= len(subject), the whole match always present
+			okIdx := len(idx) == 2*(len(names)+1) && idx[0] >= 0
+			for j := 0; okIdx && j+1 < len(idx); j += 2 {
+				a, b := idx[j], idx[j+1]
+				okIdx = (a < 0 && b < 0) || (0 <= a && a <= b && b <= len(str.AsString()))
+			}
+			ctx.Probe("regexp-submatch-index-shape", okIdx, fmt.Sprintf("FindStringSubmatchIndex(%q, %q) = %v", pat.AsString(), str.AsString(), idx))
+		}
 		if ty == cty.NilType {
 			c.wantErr = true
 		} else {
@@ -846,6 +871,15 @@ func c14Csv(ctx *Ctx, n int) {
 			for _, k := range []int{len(hdr), len(distinct)} {
 				recs, failed := csvReadAll(in, k)
 				o.add("csvAll", []string{in, strconv.Itoa(k)}, encRecs(recs, failed))
+				// the law about encoding/csv that C14.csvdecode_never_panics assumes: with FieldsPerRecord = k > 0 every
+				// record delivered before the first error has exactly k fields
+				okRecs := true
+				for _, rec := range recs {
+					if k > 0 && len(rec) != k {
+						okRecs = false
+					}
+				}
+				ctx.Probe("csv-fields-per-record", okRecs, fmt.Sprintf("csv.Reader{FieldsPerRecord: %d} on %q delivered %v", k, in, recs))
 			}
 		}
 		// reference: encoding/csv's own ReadAll (first record fixes the field count)
